@@ -58,17 +58,17 @@ type vSimPlan struct {
 }
 
 type vSimNode struct {
-	name    string
-	ip      net.IP
-	m       *Memberlist
-	mp      *Memberlist
-	cell    **Memberlist
-	tr      *vSimTransport
-	md      *vMetaDelegate
-	up      bool
-	left    bool
-	epoch   int
-	meta    string
+	name  string
+	ip    net.IP
+	m     *Memberlist
+	mp    *Memberlist
+	cell  **Memberlist
+	tr    *vSimTransport
+	md    *vMetaDelegate
+	up    bool
+	left  bool
+	epoch int
+	meta  string
 }
 
 type vSim struct {
